@@ -142,6 +142,9 @@ func (p piece) with(m mut) piece { p.muts = append(append([]mut(nil), p.muts...)
 func postKeys(ops []op) []string {
 	var keys []string
 	for _, o := range ops {
+		if o.kind == 'E' {
+			continue
+		}
 		if o.kind == 'C' {
 			found := false
 			for _, k := range keys {
@@ -175,6 +178,9 @@ func genOps(r *gen.Rand, n int, allowRaw bool) []op {
 		} else {
 			ops = append(ops, op{kind: 'C', name: gen.Pick(r, namePool), value: genValue(r), attr: r.Intn(nAttr)})
 		}
+	}
+	if n > 0 && r.Chance(1, 6) {
+		ops = append(ops, op{kind: 'E'}) // the handler fails after setting its cookies
 	}
 	return ops
 }
